@@ -479,6 +479,8 @@ func genC08Index(g *gen) {
 	}
 	g.def("get_indexes_collect", "list string", coqStrList(collect),
 		"GetRepositoryIndexes, "+g.pos(gri)+": how the per-repository results are collected into the returned list")
+	g.def("index_remote_shape", "list string", coqStrList(c08RemoteShape(get)),
+		"indexCache.get, remote branch: what happens without an ETag, the key of a stored result, once per key, what is stored, what is forgotten, what is returned")
 }
 
 // c08DqNode describes what a LEAF of the disqualification trie holds and how find / fill use it
@@ -629,6 +631,162 @@ func c08DqNode() []string {
 			}
 		}
 		out = append(out, desc)
+	}
+	return out
+}
+
+// c08RemoteShape describes the remote branch of indexCache.get as Model/CachesIndex.rc_get transcribes it:
+// without an ETag the index is fetched and parsed and NOTHING is stored; with one, the result - index or error - is
+// stored once (sync.Once per key) under <entry key>@<etag>, the entry of the ETag recorded before for the entry key is
+// forgotten, the ETag is recorded, and what is stored under the key is returned.  Local names are discovered from
+// the statements that bind them.
+func c08RemoteShape(get *ast.FuncDecl) []string {
+	if get == nil {
+		return []string{"other:no indexCache.get"}
+	}
+	norm := func(n ast.Node) string { return strings.Join(strings.Fields(exprText(n)), " ") }
+	recv := c08Recv(get)
+	var out []string
+	// etag, ok := <f>(resp)  where the next use is `if !ok { return <fetch>(etag) }`
+	var etagV, okV, fetchF string
+	var remote *ast.BlockStmt
+	ast.Inspect(get.Body, func(n ast.Node) bool {
+		b, isB := n.(*ast.BlockStmt)
+		if !isB || remote != nil {
+			return true
+		}
+		for k, st := range b.List {
+			as, ok := st.(*ast.AssignStmt)
+			if !ok || len(as.Lhs) != 2 || len(as.Rhs) != 1 || k+1 >= len(b.List) {
+				continue
+			}
+			if c, ok := as.Rhs[0].(*ast.CallExpr); !ok || len(c.Args) != 1 || !strings.Contains(strings.ToLower(norm(c.Fun)), "etag") {
+				continue
+			}
+			is, ok := b.List[k+1].(*ast.IfStmt)
+			if !ok {
+				continue
+			}
+			etagV, okV, remote = norm(as.Lhs[0]), norm(as.Lhs[1]), b
+			if norm(is.Cond) == "!"+okV && is.Else == nil && len(is.Body.List) == 1 {
+				if r, ok := is.Body.List[0].(*ast.ReturnStmt); ok && len(r.Results) == 1 {
+					if c, ok := r.Results[0].(*ast.CallExpr); ok && len(c.Args) == 1 && norm(c.Args[0]) == etagV {
+						if id, ok := c.Fun.(*ast.Ident); ok {
+							fetchF = id.Name
+						}
+					}
+				}
+			}
+			if fetchF != "" {
+				out = append(out, "no-etag:fetched-and-parsed-nothing-stored")
+			} else {
+				out = append(out, "no-etag:other:"+norm(is.Cond))
+			}
+		}
+		return true
+	})
+	if remote == nil {
+		return []string{"other:no `etag, ok := ...(resp)` followed by an if"}
+	}
+	// key := fmt.Sprintf("%s@%s", <entry key>, etag)
+	var keyV, entryKey, keyFmt string
+	for _, st := range remote.List {
+		if as, ok := st.(*ast.AssignStmt); ok && len(as.Lhs) == 1 && len(as.Rhs) == 1 {
+			if c, ok := as.Rhs[0].(*ast.CallExpr); ok && norm(c.Fun) == "fmt.Sprintf" && len(c.Args) == 3 {
+				keyV, keyFmt, entryKey = norm(as.Lhs[0]), norm(c.Args[0]), norm(c.Args[1])
+				// the entry key is what the local branch stores under
+				localKey := ""
+				ast.Inspect(get.Body, func(n ast.Node) bool {
+					if ix, ok := n.(*ast.IndexExpr); ok && norm(ix.X) == recv+".modtimes" && localKey == "" {
+						localKey = norm(ix.Index)
+					}
+					return true
+				})
+				if keyFmt == `"%s@%s"` && norm(c.Args[2]) == etagV && entryKey == localKey {
+					out = append(out, "key:entry-key@etag")
+				} else {
+					out = append(out, "key:other:"+norm(as.Rhs[0]))
+				}
+			}
+		}
+	}
+	if keyV == "" {
+		return append(out, "key:other:none")
+	}
+	// once, _ := <recv>.onces.LoadOrStore(key, &sync.Once{}); once.(*sync.Once).Do(func() { ... })
+	var body *ast.BlockStmt
+	loaded := false
+	ast.Inspect(remote, func(n ast.Node) bool {
+		c, ok := n.(*ast.CallExpr)
+		if !ok {
+			return true
+		}
+		if strings.HasPrefix(norm(c.Fun), recv+".") && strings.HasSuffix(norm(c.Fun), ".LoadOrStore") && len(c.Args) == 2 && norm(c.Args[0]) == keyV && norm(c.Args[1]) == "&sync.Once{}" {
+			loaded = true
+		}
+		if strings.HasSuffix(norm(c.Fun), ".(*sync.Once).Do") && len(c.Args) == 1 {
+			if fl, ok := c.Args[0].(*ast.FuncLit); ok {
+				body = fl.Body
+			}
+		}
+		return true
+	})
+	if loaded && body != nil {
+		out = append(out, "once-per-key")
+	} else {
+		return append(out, "other:no sync.Once per key")
+	}
+	// inside Do: prev, ok := <recv>.urlToEtag[entryKey]; if ok { prevKey := Sprintf(fmt, entryKey, prev); <recv>.forget(prevKey) }
+	//            idx, err := <fetch>(etag); <recv>.store(key, idx, err); <recv>.urlToEtag[entryKey] = etag
+	var tab, prevV string
+	forgets, stores, records := "forgets:other", "stores:other", "records:other"
+	ast.Inspect(body, func(n ast.Node) bool {
+		switch x := n.(type) {
+		case *ast.AssignStmt:
+			if len(x.Lhs) == 2 && len(x.Rhs) == 1 {
+				if ix, ok := x.Rhs[0].(*ast.IndexExpr); ok && strings.HasPrefix(norm(ix.X), recv+".") && norm(ix.Index) == entryKey {
+					tab, prevV = norm(ix.X), norm(x.Lhs[0])
+				}
+				if c, ok := x.Rhs[0].(*ast.CallExpr); ok && norm(c.Fun) == fetchF && len(c.Args) == 1 && norm(c.Args[0]) == etagV {
+					a, b := norm(x.Lhs[0]), norm(x.Lhs[1])
+					ast.Inspect(body, func(m ast.Node) bool {
+						if c2, ok := m.(*ast.CallExpr); ok && norm(c2.Fun) == recv+".store" && len(c2.Args) == 3 && norm(c2.Args[0]) == keyV && norm(c2.Args[1]) == a && norm(c2.Args[2]) == b {
+							stores = "stores:the-index-or-the-error"
+						}
+						return true
+					})
+				}
+			}
+			if len(x.Lhs) == 1 && len(x.Rhs) == 1 && tab != "" {
+				if ix, ok := x.Lhs[0].(*ast.IndexExpr); ok && norm(ix.X) == tab && norm(ix.Index) == entryKey && norm(x.Rhs[0]) == etagV {
+					records = "records:the-etag-of-the-entry-key"
+				}
+			}
+		case *ast.IfStmt:
+			if tab == "" || prevV == "" {
+				return true
+			}
+			var pk string
+			for _, st := range x.Body.List {
+				if as, ok := st.(*ast.AssignStmt); ok && len(as.Lhs) == 1 && len(as.Rhs) == 1 {
+					if c, ok := as.Rhs[0].(*ast.CallExpr); ok && norm(c.Fun) == "fmt.Sprintf" && len(c.Args) == 3 && norm(c.Args[0]) == keyFmt && norm(c.Args[1]) == entryKey && norm(c.Args[2]) == prevV {
+						pk = norm(as.Lhs[0])
+					}
+				}
+				if es, ok := st.(*ast.ExprStmt); ok && pk != "" && norm(es.X) == recv+".forget("+pk+")" {
+					forgets = "forgets:the-entry-of-the-previous-etag"
+				}
+			}
+		}
+		return true
+	})
+	out = append(out, forgets, stores, records)
+	if n := len(remote.List); n > 0 {
+		if r, ok := remote.List[n-1].(*ast.ReturnStmt); ok && len(r.Results) == 1 && norm(r.Results[0]) == recv+".load("+keyV+")" {
+			out = append(out, "returns:what-is-stored-under-the-key")
+		} else {
+			out = append(out, "returns:other:"+norm(remote.List[n-1]))
+		}
 	}
 	return out
 }
